@@ -68,6 +68,12 @@ CHECKS = {
                   'delimiter / escape alphabet (640 800 lists); the same strings and adversarial ones go through the real make_*_data '
                   'functions and TLC scans / parses the returned payloads (fields exact, one vCard line per value, valid mailto / geo URIs, '
                   'EPC line layout, amount, character set, 331 byte limit); limits must be refused; factory symbols decoded by the C01 decoder.', ref='6 C16'),
+ 'C14': dict(tech='TLA+ argument models (spec/Args.tla for the factories, spec/SaveArgs.tla for serialisers and command line) exported as vectors; executions validated by TLC',
+             text='TLC enumerates combinations of documented argument value classes (canonical / alternative spelling / boundary / malformed) '
+                  'with the set of outcomes the documentation allows; each is executed with a time limit; TLC validates the outcome class '
+                  '(ok / ValueError / LookupError, nothing else), equality of accepted alternative spellings with the canonical spelling, the '
+                  'accepted symbols against the C01-C03 clauses, serialiser refusals per kind, and the exit status / stderr contract of the '
+                  'command line tool (in-process and as subprocess).', ref='6 C14'),
 }
 
 NOT_YET = {}
